@@ -183,15 +183,22 @@ func (g *c05Gen) rangeStmt(depth int, scope []string) []*mj.Node {
 		n.Names = []string{kn, vn}
 	}
 	discard := -1
-	if decl && form == 2 && g.n(0, 3, "discardSlot") == 0 {
-		// '_' discards the key or the value; '.' keeps the parent context either way (two-variable form)
+	if form == 2 && g.n(0, 3, "discardSlot") == 0 {
+		// '_' discards the key or the value, with := and with =; '.' keeps the parent context either way (two-variable form)
 		discard = g.n(0, 1, "whichDiscard")
 		n.Names[discard] = "_"
-		g.labels[fmt.Sprintf("range-discard-slot:%d", discard)] = true
+		g.labels[fmt.Sprintf("range-discard-slot:%d:decl=%v", discard, decl)] = true
+	} else if form == 1 && g.n(0, 7, "discardOnly") == 0 {
+		// the only variable is '_': nothing is bound ('.' is the element for rangers with an index, as in the one-variable form)
+		discard = 0
+		n.Names[0] = "_"
+		g.labels[fmt.Sprintf("range-discard-only:decl=%v", decl)] = true
 	}
 	if !decl {
 		for _, nm := range n.Names {
-			pre = append(pre, mj.Let(nm, mj.Str("init")))
+			if nm != "_" {
+				pre = append(pre, mj.Let(nm, mj.Str("init")))
+			}
 		}
 	}
 	// what the body can see
@@ -201,9 +208,12 @@ func (g *c05Gen) rangeStmt(depth int, scope []string) []*mj.Node {
 		inner = []string{"."}
 		body = append(body, mj.Text(".="), mj.Print(mj.Dot()))
 	case 1:
-		inner = []string{kn}
-		body = append(body, mj.Text("1="), mj.Print(mj.Var(kn)))
-		if s.indexed || s.fails {
+		inner = []string{}
+		if discard != 0 {
+			inner = append(inner, kn)
+			body = append(body, mj.Text("1="), mj.Print(mj.Var(kn)))
+		}
+		if s.indexed || s.fails || discard == 0 {
 			body = append(body, mj.Text(",.="), mj.Print(mj.Dot()))
 			inner = append(inner, ".")
 		}
